@@ -50,7 +50,7 @@ class C14(Check):
     rule = ('movable.sed keys in the three accepted lengths (and rejected ones); paths of depth 1-6 with ASCII/BMP/astral '
             'segments (fixed pool and random strings over combining sequences, precomposed and compatibility characters, jamo, letters '
             'with unusual case mappings), mixed case, leading slash variants, "." ".." and "//" segments; MemoryFS and OSFS (temp dir) '
-            'back-ends; access through the ID1 view and through nested opendir views; write/seek/read histories; raw '
+            'back-ends; access through the ID1 view and through nested opendir views, with open() and with openbin(), re-read through the canonical and through the same spelling; write/seek/read histories; raw '
             'backing bytes compared with the ECB-keystream encryption under the independently derived counter; the '
             'pure sd_path_to_iv function also with backslash separators; non-trivial = always')
     trusted_base = [
@@ -70,6 +70,7 @@ class C14(Check):
             segs = ['backup' + rng.pick(['', 'foo']), '0004000000123400', 'abcdefgh', '00000001.sav'][:rng.randint(2, 4)]
         return {'segs': segs, 'keylen': rng.pick([0x10, 0x120, 0x140, 0x10, 0x11, 0x100]), 'backend': rng.pick(['mem', 'mem', 'os']),
                 'via': rng.pick(['root', 'opendir', 'opendir2']), 'style': rng.pick(['plain', 'slash', 'dot', 'dotdot', 'dslash', 'upper']),
+                'api': rng.pick(['open', 'openbin']), 'reread': rng.pick(['canonical', 'same-spelling']),
                 'seed': rng.getrandbits(32), 'dev': 0}
 
     def run_case(self, case, drv):
@@ -84,7 +85,7 @@ class C14(Check):
         data = key if case['keylen'] == 0x10 else (rng.rbytes(0x110) + key + rng.rbytes(0x30))[:case['keylen']]
         mon, key_ = [], None
         outs, models = [], []
-        info = {'keylen:%#x' % case['keylen']: 1, 'backend:' + case['backend']: 1, 'via:' + case['via']: 1, 'style:' + case['style']: 1}
+        info = {'api:' + case.get('api', 'open'): 1, 'keylen:%#x' % case['keylen']: 1, 'backend:' + case['backend']: 1, 'via:' + case['via']: 1, 'style:' + case['style']: 1}
         # --- key setup / ID0
         try:
             eng.setup_sd_key(data)
@@ -150,7 +151,9 @@ class C14(Check):
                     else:
                         view, vpath = sdfs.opendir(dirp), fname
                     content = rng.rbytes(rng.pick([0, 1, 15, 16, 17, 40, 100]))
-                    with view.open(vpath, 'wb') as f:
+                    # both entry points of the filesystem interface: open() and openbin()
+                    opener = (lambda v, pth, m: v.openbin(pth, m)) if case.get('api') == 'openbin' else (lambda v, pth, m: v.open(pth, m))
+                    with opener(view, vpath, 'wb') as f:
                         f.write(content)
                     raw = base.readbytes(f'{id0}/{id1}/' + full)
                     ivx = expected_iv('/' + full)
@@ -160,7 +163,7 @@ class C14(Check):
                         key_ = 'sd.backup-alias' if is_backup else 'sd.write'
                     # read / modify through another view, compare with a shadow plaintext
                     ref = RefFile(content, False)
-                    with sdfs.open(full, 'r+b') as f:
+                    with opener(*((view, vpath) if case.get('reread') == 'same-spelling' else (sdfs, full)), 'r+b') as f:
                         for _ in range(6):
                             r = rng.random()
                             if r < 0.4:
